@@ -323,7 +323,15 @@ pub fn genesis(cfg: &CfgPlan, p: &Profile) -> GenesisSpec {
                     pubkey: pk(s.key as usize),
                     e_start: start,
                     e_post_end: start + 1 + (s.len % 4) as u64,
-                    syms_staked: CoinValue(1 + (s.syms as u128 % 10)),
+                    // mostly small amounts; one genesis stake in four is large (to 2^124: voting-power sums and
+                    // threshold products near the top of the 128-bit range; at most 6 stakes, so the sum fits)
+                    syms_staked: CoinValue(match s.syms % 16 {
+                        12 => 1u128 << 64,
+                        13 => (1u128 << 100) + s.syms as u128,
+                        14 => (1u128 << 120) + 1,
+                        15 => (1u128 << 124) + 2,
+                        _ => 1 + (s.syms as u128 % 10),
+                    }),
                 },
             )
         })
@@ -333,6 +341,7 @@ pub fn genesis(cfg: &CfgPlan, p: &Profile) -> GenesisSpec {
         init: CoinData { covhash: cov.hash(), value: CoinValue(value), denom, additional_data: Default::default() },
         init_cov: cov,
         fee_pool: match cfg.fee_pool % 4 {
+            _ if cfg.fee_pool % 16 == 15 => 1u128 << 125,
             0 => 0,
             1 => 5_000_000,
             2 => 1u128 << 40,
